@@ -42,11 +42,19 @@ def run_cases(name: str, cases: Iterable, check_case: Callable[[Any], list], *, 
         if len(rep.samples) < 2 and rep.evaluations in (1, 50):
             rep.samples.append({"check": name, "case": describe(case), "violated": bad})
         if bad and len(rep.failures) < max_failures:
-            rep.failures.append(Failure(check=name, obligation=";".join(str(b).split(":")[0] for b in bad),
+            rep.failures.append(Failure(check=name, obligation=_klass(bad),
                                         what=f"{name}: {bad} on case {str(describe(case))[:700]}",
                                         case={"check": name, "case": describe(case), "violated": bad},
                                         rung="bounded", pickled=_pickle(case)))
     return rep
+
+
+def _klass(bad: list) -> str:
+    """Coarse class of a failure (for de-duplicating reports): first clause with literals removed."""
+    import re
+    t = str(bad[0]).split(":")[0] if ":" in str(bad[0])[:40] else str(bad[0])
+    t = re.sub(r"'[^']*'|\d+(\.\d+)?", "_", t)
+    return t[:80]
 
 
 class Check:
